@@ -12,6 +12,7 @@ META = {
         "redrawn before every event; every step is checked online against the reference selection rule. "
         ""
         "30% of the machines are written in an alternative declaration style (inheritance split, keyword events, Event objects, from_/grouped targets, dict/enum containers) and 15% of the multi-guard transitions carry their guards as ONE boolean expression (both operator spellings). "
+        "A few nested sends, guards passed as module-level / class-body function objects with a same-named decoy method on another provider, guards that answer per candidate (by target), the history may continue on a deepcopy/pickle clone. "
         "distinct_nontrivial = distinct (machine shape, history) in which some event had >=2 matching "
         "candidates and a non-first one won, or no candidate was enabled, or a validator aborted."
     ),
